@@ -285,15 +285,31 @@ fn separate_root_renames(
     paths.iter().cloned().partition(|rename| {
         resolved_paths.iter().any(|root_path| {
             rename.path.parent().is_none()
-                || rename
-                    .path
-                    .canonicalize()
-                    .unwrap_or_else(|_| rename.path.clone())
+                || location_of(&rename.path)
                     == root_path
                         .canonicalize()
                         .unwrap_or_else(|_| root_path.clone())
         })
     })
+}
+
+/// Real location of a planned source without following a final symlink: the canonical parent
+/// directory joined with the entry's own name, so a symlink that points at a search root is
+/// not mistaken for the root.
+fn location_of(path: &std::path::Path) -> PathBuf {
+    match (path.parent(), path.file_name()) {
+        (Some(parent), Some(name)) => {
+            let parent = if parent.as_os_str().is_empty() {
+                std::path::Path::new(".")
+            } else {
+                parent
+            };
+            parent
+                .canonicalize()
+                .map_or_else(|_| path.to_path_buf(), |dir| dir.join(name))
+        },
+        _ => path.canonicalize().unwrap_or_else(|_| path.to_path_buf()),
+    }
 }
 
 fn filter_renames_by_root_policy(
